@@ -1220,9 +1220,6 @@ pub fn wl_timer<L: RawMutex + Send + Sync + 'static>(seed: u64, n: usize, rounds
                         svc.check_expirations();
                         run.ops.fetch_add(1, Relaxed);
                         std::thread::yield_now();
-                        if t > 2_000_000 {
-                            break;
-                        }
                     }
                     clock.set_time(u32::MAX as u64);
                     svc.check_expirations();
